@@ -78,6 +78,25 @@ class _Route(Contract):
     def call_args(self, formals):
         return [formals["self"], formals["units"]]
 
+    def apply(self, it, bound):
+        u_ = bound.get("units")
+        if not (isinstance(u_, SObj) and u_.cls.name == "Unit"):
+            # a unit given as a string (or anything else): the body itself resolves it
+            fi = it.repo.func(self.name)
+            kw = dict(bound.get("kwargs") or {})
+            if bound.get("equivalence") is not None:
+                kw["equivalence"] = bound["equivalence"]
+            return it.run_body(fi, [bound["self"], u_], kw)
+        if bound.get("equivalence") is not None:
+            # the equivalence spelling of a route is another function altogether: its body is
+            # executed (it forwards to to_equivalent / convert_to_equivalent, which the contracts of
+            # contracts/equivalence.py cover); this contract speaks about equivalence=None only
+            fi = it.repo.func(self.name)
+            kw = dict(bound.get("kwargs") or {})
+            kw["equivalence"] = bound["equivalence"]
+            return it.run_body(fi, [bound["self"], bound["units"]], kw)
+        return Contract.apply(self, it, bound)
+
     def track(self, it, a):
         N.track_array(it, "self", a.self)
         track_unit(it, "old", a.self.fields["units"])
